@@ -3,6 +3,7 @@ package main
 import (
 	"fmt"
 	"go/token"
+	"go/types"
 	"sort"
 	"strings"
 
@@ -278,6 +279,18 @@ func (s *symCtx) eval1(v ssa.Value) []string {
 		if c, ok := x.Tuple.(*ssa.Call); ok {
 			return s.evalCall(c, x.Index)
 		}
+		switch t := x.Tuple.(type) {
+		case *ssa.TypeAssert:
+			if x.Index == 0 {
+				return s.eval(t.X)
+			}
+		case *ssa.Lookup:
+			if x.Index == 0 {
+				return cross("lookup", [][]string{s.eval(t.X), s.eval(t.Index)})
+			}
+		case *ssa.Next:
+			return cross(fmt.Sprintf("next#%d", x.Index), [][]string{s.eval(t.Iter)})
+		}
 		return []string{"extract:" + x.Tuple.Name()}
 	case *ssa.Call:
 		return s.evalCall(x, 0)
@@ -292,6 +305,25 @@ func (s *symCtx) eval1(v ssa.Value) []string {
 		return cross("slice", [][]string{s.eval(x.X)})
 	case *ssa.FieldAddr:
 		return cross("addr:"+fieldName(x), [][]string{s.eval(x.X)})
+	case *ssa.Field:
+		name := "?"
+		if st, ok := x.X.Type().Underlying().(*types.Struct); ok {
+			name = st.Field(x.Field).Name()
+		}
+		tn := x.X.Type().String()
+		return cross("field:"+strings.TrimPrefix(tn, modPath+"/")+"."+name, [][]string{s.eval(x.X)})
+	case *ssa.Index:
+		return cross("index", [][]string{s.eval(x.X)})
+	case *ssa.IndexAddr:
+		return cross("index", [][]string{s.eval(x.X)})
+	case *ssa.Next:
+		return cross("next", [][]string{s.eval(x.Iter)})
+	case *ssa.Range:
+		return cross("range", [][]string{s.eval(x.X)})
+	case *ssa.MakeMap:
+		return []string{"makemap@" + s.L.pos(x.Pos())}
+	case *ssa.MakeSlice:
+		return []string{"makeslice@" + s.L.pos(x.Pos())}
 	case *ssa.Lookup:
 		return cross("lookup", [][]string{s.eval(x.X), s.eval(x.Index)})
 	}
